@@ -84,7 +84,7 @@ Definition ctx0 : sctx := mkCtx 0 0.
 Record sst := mkSt {
   st_src : src;                        (* GlobalSynthesisContext.random (= decider.random for the tree deciders;
                                           = genotype.random for dSGE) *)
-  st_exp : option bool;                (* PositionIndependentGrowDecider.expanding (None: attribute not set yet) *)
+  st_exp : option bool;                (* PositionIndependentGrowDecider.expanding (class-level default True) *)
   st_pos : list (ty * nat);            (* DynamicSGEDecider.positions *)
   st_dna : list (ty * list Z);         (* dSGE Genotype.dna *)
   st_alts : list (nat * list nat)      (* Grammar.alternatives — the lists create_node is handed *)
@@ -460,7 +460,7 @@ Fixpoint create_node (fuel : nat) (g : grammar) (k : dkind) (t : ty) (ctx : sctx
 
 (* random_node / random_tree from the start symbol with a fresh context *)
 Definition st_init (g : grammar) (s : src) : sst :=
-  mkSt s None (map (fun x => (key_of_sym x, O)) (r_nodes (g_reg g))) [] (r_alts (g_reg g)).
+  mkSt s (Some true) (map (fun x => (key_of_sym x, O)) (r_nodes (g_reg g))) [] (r_alts (g_reg g)).
 
 Definition synth_fuel (g : grammar) (D : Z) : nat :=
   (40 + 4 * Z.to_nat (Z.max D 0) * (3 + length (d_classes (g_decl g))))%nat.
